@@ -215,6 +215,23 @@ def same_function_overlap_probe():
     except BaseException as e:
         out["tasks_bystander_prints"] = type(e).__name__
     put_back()
+    # two DIFFERENT coroutine functions, overlapping A in, B in, A out, B out: decorated with one shared deal.has() object, and with two
+    def two_functions(shared):
+        h1 = deal.has(); h2 = h1 if shared else deal.has()
+        @h1
+        async def fa(entered, leave): entered.set(); await leave.wait(); return "A"
+        @h2
+        async def fb(entered, leave): entered.set(); await leave.wait(); return "B"
+        async def main2():
+            a_in, a_out, b_in, b_out = [asyncio.Event() for _ in range(4)]
+            before = snap()
+            ta = asyncio.ensure_future(fa(a_in, a_out)); await a_in.wait()
+            tb = asyncio.ensure_future(fb(b_in, b_out)); await b_in.wait()
+            a_out.set(); await ta; b_out.set(); await tb
+            return same(before, snap())
+        r = asyncio.run(main2()); put_back(); return r
+    out["two_functions_shared_has_restored"] = two_functions(True)
+    out["two_functions_separate_has_restored"] = two_functions(False)
     a_in, a_out, b_in, b_out = [threading.Event() for _ in range(4)]
     @deal.has()
     def twork(entered, leave):
@@ -242,9 +259,13 @@ def thread_probe(ctx, fr):
     r3 = impl.run_impl('pyexec.py', {'src': THREAD_SRC, 'calls': [['same_function_overlap_probe', []]]})[0]
     fr.evaluations += 1; fr.samples.append({'family': 'same-function-overlap-probe', 'result': r3})
     if not (isinstance(r3, dict) and r3.get('tasks_restored') is True and r3.get('threads_restored') is True and r3.get('tasks_bystander_prints') is True
-            and r3.get('threads_bystander_prints') is True and r3.get('tasks_results') == ['A', 'B']):
+            and r3.get('threads_bystander_prints') is True and r3.get('tasks_results') == ['A', 'B'] and r3.get('two_functions_shared_has_restored') is True):
         fr.violations.append({'scenario': {'family': 'same-function-overlap-probe'}, 'impl': r3, 'signature': None,
                               'what': f'after two overlapping tasks / threads inside one has() function the streams are not the original ones: {r3}'})
+    if isinstance(r3, dict) and r3.get('two_functions_separate_has_restored') is not True:
+        fr.violations.append({'scenario': {'family': 'same-function-overlap-probe', 'case': 'two coroutine functions with separate has() objects, A in, B in, A out, B out'},
+                              'impl': r3.get('two_functions_separate_has_restored'), 'signature': 'non_lifo_overlap_separate_patchers',
+                              'what': 'two coroutines with separate has() patchers that overlap without nesting leave the standard streams / socket class patched after both have finished'})
     r2 = impl.run_impl('pyexec.py', {'src': THREAD_SRC, 'calls': [['overlap_probe', []]]})[0]
     fr.evaluations += 1; fr.samples.append({'family': 'thread-overlap-probe', 'result': r2})
     if not (isinstance(r2, dict) and r2.get('switch_after') == r2.get('switch_before') and r2.get('enforced_afterwards') and r2.get('results') == [['value', 6], ['value', 1]]):
